@@ -3,15 +3,15 @@ import gens
 from checklib import Scenario
 
 RULE = ("histories of up to 60 set/get/get-with-default/list calls over 10 section spellings x 5 keys (+ NULL and empty), "
-        "from econf_newKeyFile, econf_newIniFile, econf_newKeyFile_with_options and parsed files; a case is non-trivial "
+        "from econf_newKeyFile, econf_newIniFile, econf_newKeyFile_with_options, parsed files (with and without group-less keys, sections only, empty sections, re-opened sections) and merge results; a case is non-trivial "
         "when it contains a creation, an overwrite and a lookup miss; distinct by the model's output lines")
 
 def gen(rng, tier):
     n = 400 if tier == "quick" else 20000
     out = []
     for _ in range(n):
-        cmds = [gens.start_cmd(rng, 0)]
-        obs = [False]
+        cmds = gens.start_cmds(rng, 0)
+        obs = [False] * len(cmds)
         for _ in range(rng.randrange(3, 60)):
             r = rng.random()
             if r < 0.5: cmds.append(gens.set_cmd(rng, 0))
